@@ -209,42 +209,72 @@ Section Base.
     destruct (Nat.ltb_spec level (S level)); [reflexivity|lia].
   Qed.
 
+  (** ** The full decoder: parent path, own segments, amount, leaf flag of every
+         row; [decode_from] and [decode_own_from] of the Spec are projections *)
+  Notation dec := (list bytes * T * bool)%type.
+  Notation fdec := (list bytes * list bytes * T * bool)%type.
+
+  Fixpoint decode_full_from (st : stack) (rows : list row) : list fdec :=
+    match rows with
+    | [] => []
+    | (x, lvl, label) :: rest =>
+        let st' := pop_to lvl st in
+        let own := split_on c_slash label in
+        (stack_path st', own, x, is_leaf_row NM lvl rest)
+          :: decode_full_from ((lvl, stack_path st' ++ own) :: st') rest
+    end.
+
+  Definition fdec_dec (d : fdec) : dec := let '(pp, own, x, lf) := d in (pp ++ own, x, lf).
+  Definition fdec_own (d : fdec) : list bytes * list bytes * T := let '(pp, own, x, lf) := d in (pp, own, x).
+
+  Lemma decode_from_full (st : stack) (rows : list row) :
+    decode_from NM st rows = map fdec_dec (decode_full_from st rows).
+  Proof.
+    revert st. induction rows as [|[[x lvl] lab] rest IH]; intros st; [reflexivity|].
+    cbn [decode_from decode_full_from map fdec_dec]. rewrite IH. reflexivity.
+  Qed.
+
+  Lemma decode_own_from_full (st : stack) (rows : list row) :
+    decode_own_from NM st rows = map fdec_own (decode_full_from st rows).
+  Proof.
+    revert st. induction rows as [|[[x lvl] lab] rest IH]; intros st; [reflexivity|].
+    cbn [decode_own_from decode_full_from map fdec_own]. rewrite IH. reflexivity.
+  Qed.
+
   (** ** The decoder only looks at the part of the stack the next row keeps *)
   Lemma decode_from_equiv (level : nat) (st st2 : stack) (rest : list row) :
     (forall l', (l' <= level)%nat -> pop_to l' st2 = pop_to l' st) ->
-    head_le level rest -> decode_from NM st2 rest = decode_from NM st rest.
+    head_le level rest -> decode_full_from st2 rest = decode_full_from st rest.
   Proof.
-    destruct rest as [|[[x l] lab] r]; cbn [head_le decode_from]; intros Heq Hl; [reflexivity|].
+    destruct rest as [|[[x l] lab] r]; cbn [head_le decode_full_from]; intros Heq Hl; [reflexivity|].
     rewrite (Heq l Hl). reflexivity.
   Qed.
 
   Lemma decode_from_pushed (level : nat) (p : list bytes) (st : stack) (rest : list row) :
     head_le level rest ->
-    decode_from NM ((level, p) :: pop_to level st) rest = decode_from NM st rest.
+    decode_full_from ((level, p) :: pop_to level st) rest = decode_full_from st rest.
   Proof.
     intros H. apply (decode_from_equiv level); [|assumption].
     intros l' Hl'. rewrite pop_to_push_ge by assumption. apply pop_to_le, Hl'.
   Qed.
 
   Lemma decode_from_cons (st : stack) (x : T) (level : nat) (lab : bytes) (rest : list row) :
-    decode_from NM st ((x, level, lab) :: rest) =
-    (stack_path (pop_to level st) ++ split_on c_slash lab, x, is_leaf_row NM level rest)
-      :: decode_from NM ((level, stack_path (pop_to level st) ++ split_on c_slash lab) :: pop_to level st) rest.
+    decode_full_from st ((x, level, lab) :: rest) =
+    (stack_path (pop_to level st), split_on c_slash lab, x, is_leaf_row NM level rest)
+      :: decode_full_from ((level, stack_path (pop_to level st) ++ split_on c_slash lab) :: pop_to level st) rest.
   Proof. reflexivity. Qed.
 
   (** ** A forest printed at one level decodes child by child *)
-  Notation dec := (list bytes * T * bool)%type.
-
-  Lemma decode_forest (rows_of : tree -> list row) (dec_of : list bytes -> tree -> list dec)
+  Lemma decode_forest (rows_of : tree -> list row) (dec_of : list bytes -> tree -> list fdec)
         (level : nat) (ch : list tree) :
     Forall (fun c =>
               starts_at level (rows_of c) /\
               forall st rest, head_le level rest ->
-                decode_from NM st (rows_of c ++ rest) =
-                dec_of (stack_path (pop_to level st)) c ++ decode_from NM st rest) ch ->
+                decode_full_from st (rows_of c ++ rest) =
+                dec_of (stack_path (pop_to level st)) c ++ decode_full_from st rest) ch ->
     forall st rest, head_le level rest ->
-      decode_from NM st (flat_map rows_of ch ++ rest) =
-      flat_map (dec_of (stack_path (pop_to level st))) ch ++ decode_from NM st rest.
+      decode_full_from st (flat_map rows_of ch ++ rest) =
+      flat_map (dec_of (stack_path (pop_to level st))) ch ++ decode_full_from st rest.
   Proof.
     induction 1 as [|c r [Hs Hc] Hr IH]; intros st rest Hrest; cbn [flat_map app]; [reflexivity|].
     rewrite <- !app_assoc. rewrite Hc.
@@ -315,7 +345,7 @@ Section Base.
     match child with
     | Node cn ct [] => [(ct, level, cn)]
     | Node cn ct [Node gn gt []] =>
-        if cl then [(ct, level, cn ++ [c_slash] ++ gn)]
+        if (cl && t_eqb NM gt ct)%bool then [(ct, level, cn ++ [c_slash] ++ gn)]
         else (ct, level, cn) :: print_node NM cl (S level) child
     | Node cn ct _ => (ct, level, cn) :: print_node NM cl (S level) child
     end.
@@ -335,16 +365,42 @@ Section Base.
     destruct c as [cn ct [|[gn gt [|g2 gr]] [|c2 r]]]; reflexivity.
   Qed.
 
-  Lemma jump_print_single level tot acc n x only :
-    jump_print NM level tot acc (Node n x [only]) = jump_print NM level tot (acc ++ [n]) only.
-  Proof. reflexivity. Qed.
+  (** where the chain of sole children goes on from a node with total [x] and
+      children [ch]: to the only child, if its total is Go-equal to [x] *)
+  Definition jump_next (x : T) (ch : list tree) : option tree :=
+    match ch with
+    | [only] => if t_eqb NM (t_total NM only) x then Some only else None
+    | _ => None
+    end.
 
-  Lemma jump_print_end level tot acc n x ch :
-    match ch with [_] => False | _ => True end ->
+  Lemma jump_next_some x ch only :
+    jump_next x ch = Some only -> ch = [only] /\ t_eqb NM (t_total NM only) x = true.
+  Proof.
+    destruct ch as [|c1 [|c2 r]]; cbn [jump_next]; try discriminate.
+    destruct (t_eqb NM (t_total NM c1) x) eqn:E; [|discriminate].
+    intros H. inversion H; subst c1. split; [reflexivity|exact E].
+  Qed.
+
+  Lemma jump_next_cases x ch : (exists only, jump_next x ch = Some only) \/ jump_next x ch = None.
+  Proof. destruct (jump_next x ch) as [o|]; [left; exists o; reflexivity|right; reflexivity]. Qed.
+
+  Lemma jump_print_follow level tot acc n x ch only :
+    jump_next x ch = Some only ->
+    jump_print NM level tot acc (Node n x ch) = jump_print NM level tot (acc ++ [n]) only.
+  Proof.
+    intros H. destruct (jump_next_some _ _ _ H) as [E Heq]. subst ch.
+    cbn [jump_print]. rewrite Heq. reflexivity.
+  Qed.
+
+  Lemma jump_print_stop level tot acc n x ch :
+    jump_next x ch = None ->
     jump_print NM level tot acc (Node n x ch) =
     (tot, level, join [c_slash] (acc ++ [n]))
       :: flat_map (fun c => jump_print NM (S level) (t_total NM c) [] c) ch.
-  Proof. destruct ch as [|c1 [|c2 r]]; intros H; [reflexivity|contradiction|reflexivity]. Qed.
+  Proof.
+    destruct ch as [|c1 [|c2 r]]; cbn [jump_next jump_print]; intros H; try reflexivity.
+    destruct (t_eqb NM (t_total NM c1) x); [discriminate|reflexivity].
+  Qed.
 
   Lemma print_collapsed_eq t :
     print_collapsed NM t = flat_map (fun c => jump_print NM O (t_total NM c) [] c) (t_children NM t).
